@@ -34,6 +34,7 @@ func checkC06(p *Prog, r *Report) {
 	ruleC06Source(p, a, r)
 	ruleC06RawSource(p, a, r)
 	ruleC06VerbatimBody(p, a, r)
+	ruleC06TagExit(p, a, r)
 }
 
 // R-C06-EOF: the value the lexer's next() returns at the end of the input lies outside the domain of runes.
